@@ -222,6 +222,7 @@ class Instance:
     definedness: bool = True     # generate definedness obligations (False: only ensures / frame / exceptions)
     fixed_seed: bool = False     # bounded instance: ignore VERIF_SEED (used to pin a known finding to its input)
     shard_depth: int = 0         # > 0: split the path exploration over worker processes by decision prefixes of this length
+    lemma: object = None         # mode == 'lemma': {'file', 'theorems', 'statement', 'assumptions'} checked by pbv.lemmas
 
     @property
     def key(self):
